@@ -48,7 +48,7 @@ class World:
     PROBES_EXPECTED = ["mixed-kinds", "const-task", "const-sum-task", "empty-sum-task", "zero-shot-task", "measurable-task", "no-measurable",
                        "over-delivery", "peer-fault", "tracker-runner", "tagged-runner", "symbolic-runner", "exact-step", "bind-step",
                        "empty-task-list", "disk-fault", "exact-zero-shot-task", "bind-shared-circuit", "duplicate-tasks",
-                       "bind-idle-upper-qubits", "recycled-result-object", "peer-declines-batches"]
+                       "bind-idle-upper-qubits", "recycled-result-object", "peer-declines-batches", "exact-after-in-place-reweighting"]
 
     def gen_plan(self, seed, tier):
         r = random.Random(seed)
@@ -104,7 +104,7 @@ class World:
                     c["n"] = n
                     tasks.append({"c": c, "op": gen.rand_pauli(r, n, r.randint(1, 3), ops="XYZ", constant=0.15, dup=0.1),
                                   "shots": r.choice([None, None, 0, 0, 1, 25])})
-                s = {"op": "exact", "args": {"tasks": tasks}}
+                s = {"op": "exact", "args": {"tasks": tasks, "reweigh": r.random() < 0.4}}
             else:
                 k = r.randint(1, 5)
                 s = {"op": "bind", "args": {"share": r.random() < 0.4, "tasks": [{"q": r.randrange(n), "gate": r.choice(["RX", "RY", "RZ", "PHASE"]),
@@ -352,6 +352,34 @@ class World:
                 v = np.asarray(ev.values).reshape(-1)
                 ctx.check(len(v) == 1 and abs(complex(v[0]) - w.real) <= 1e-9, "weights", "quadratic-form",
                           f"task {i}: exact value {v}, quadratic form {w!r} for {tasks[i].circuit!r} / {tasks[i].operator!r}")
+        # the client re-weights its operator objects in place (coefficient is a public attribute of a term) and asks
+        # again: the answer must be the quadratic form of the operator as it is NOW
+        if a.get("reweigh") and ok:
+            specs = [t for t in a["tasks"]]
+            changed = False
+            for t_obj in tasks:
+                op_ = t_obj.operator
+                terms_ = getattr(op_, "terms", None)
+                if terms_:
+                    terms_[0].coefficient = terms_[0].coefficient * 2 + 1
+                    changed = True
+            if changed:
+                want2 = []
+                for t_obj in tasks:
+                    n_ = t_obj.circuit.n_qubits
+                    state = refmodel.run_circuit(t_obj.circuit.operations, n_)
+                    terms_now = [(complex(tm.coefficient), {int(q): o for q, o in tm.operations}) for tm in t_obj.operator.terms]
+                    dense = refmodel.pauli_dense(terms_now, n_)
+                    want2.append(complex(np.vdot(state, dense @ state)))
+                ok2, res2 = call(calculate_exact_expectation_values, sim, tasks)
+                ctx.check(ok2, "unexpected-reject", "exact", lambda: f"{type(res2).__name__}: {res2}")
+                with judge(ctx):
+                    for i, (ev, w) in enumerate(zip(res2, want2)):
+                        v = np.asarray(ev.values).reshape(-1)
+                        ctx.check(len(v) == 1 and abs(complex(v[0]) - w.real) <= 1e-9, "weights", "quadratic-form-after-reweighting",
+                                  f"task {i}: after the client re-weighted the operator in place the exact value is {v}, the quadratic form of "
+                                  f"the operator as it is now {w!r} ({tasks[i].operator!r})")
+                ctx.probe("exact-after-in-place-reweighting")
         ctx.probe("exact-step")
         ctx.log("exact", "ok", _sig=str(len(tasks)))
 
